@@ -29,6 +29,9 @@ def run(rep, tier, seed):
     interp.family_check(rep, "reuse", tier, seed + 1, cmp, dict(MaxNodes=3), dict(MaxNodes=4),
                         devsets=[("LateEnv",)], sample_quick=3500, sample_thorough=30000, need_outcomes=("ok",))
     # larger nestings by random simulation of the same specification
+    # string-valued variables (a value may be the empty string - which is still a definition)
+    interp.family_check(rep, "var", tier, seed + 4, cmp, dict(MaxNodes=3), dict(MaxNodes=4), sample_quick=2500, sample_thorough=20000,
+                        need_outcomes=("ok",))
     interp.simulate_family(rep, "scope", seed, 3000 if tier == "thorough" else 600, cmp, devsets=devsets, min_size=4,
                            MaxNodes=6, MaxDepth=4)
     ex, _ = vlib.example_traces()
